@@ -152,6 +152,22 @@ def acc_inc(s, names):
             else:
                 continue
             out.append(pre + body + post)
+    # an entity reference through an attribute of a select type: every entity the select can hold (member of a member select ...)
+    for e in s.entities:
+        if e["abstract"]:
+            continue
+        en = e["name"].lower()
+        C = cls[en]
+        for a in e["attrs"]:
+            if a["kind"] != "E" or a["redecl"] or a["type"][0] != "N" or s.select_members(a["type"][1]) is None:
+                continue
+            dn = a["name"].lower()
+            f = accn[(en, dn)]
+            holds = sorted(x for x in s.can_be(a["type"][1], "td") if not s.Ent(next(y["name"] for y in s.entities if y["name"].lower() == x))["abstract"])
+            for x in list(dict.fromkeys(holds[:3] + holds[-3:])):
+                out.append(f'  {{ {C} * e = ( {C} * ) mk( "{en}" ); SDAI_Application_instance * r = mk( "{x}" ); if( e && r ) {{ r->STEPfile_id = 7; '
+                           f'const TypeDescriptor * u = e->{f}()->AssignEntity( r ); std::string w; e->{f}()->STEPwrite( w ); '
+                           f'selEntResult( "{en}.{dn}", "{x}", u != 0 && w.find( "#7" ) != std::string::npos, w ); }} }}')
     # the members behind the accessors are the values on the instance's attribute list: every explicit attribute of the instance,
     # own or inherited through any supertype, that nothing in the instance's ancestry redeclares
     for e in s.entities:
@@ -231,7 +247,7 @@ def canon_real0(lines):
         if l.startswith("INST "):
             orc.append(re.sub(r"/([EDRI])[dr]*", r"/\1", l))      # the property speaks about order only
             mdl.append(l); continue                                  # the model also predicts _derive / _redefAttr
-        if l.startswith(("ACC ", "LST ")):
+        if l.startswith(("ACC ", "LST ", "SELENT ")):
             acc.append(l); continue
         if l.startswith("SCHEMA "):
             mdl.append(l); continue
@@ -351,7 +367,7 @@ def run_one(b, model_exe, s, wd, text=None, script_seed=0, script_ops=None):
     R.idx = idx
     rr = subprocess.run([exe], env=b.env(), capture_output=True, text=True, timeout=120)
     R.real = [l for l in rr.stdout.split("\n") if l]
-    R.real_acc = [l for l in R.real if l.startswith(("ACC ", "LST "))]
+    R.real_acc = [l for l in R.real if l.startswith(("ACC ", "LST ", "SELENT "))]
     if rr.returncode != 0 or not R.real or R.real[-1] != "END":
         R.status, R.detail = "run-fail", f"harness rc={rr.returncode}; last line {R.real[-1] if R.real else ''!r}; {rr.stderr[-300:]}"
     else:
@@ -455,6 +471,15 @@ def oracle_raw(R):
     for n in got_t:
         if not any(l.startswith(f"TYPE {n} ") for l in spec):
             probs.append(("mirror:type:extra", f"dictionary has a type the schema does not declare: {got_t[n]!r}", None))
+    # which entities a select type can hold (CanBe by descriptor, by name, CanBeSet): the closure of select membership
+    got_c = {l.split(" ")[1]: l for l in orc if l.startswith("CANBE ")}
+    for l in s.canbe_lines():
+        n = l.split(" ")[1]
+        if got_c.get(n) != l:
+            decl = next(t["name"] for t in s.types if t["name"].lower() == n)
+            probs.append(("select:can-be", f"select type {n}: the dictionary answers {got_c.get(n, 'nothing')!r}, the schema requires {l!r} "
+                          "(td: member entities and their subtypes through member selects of any depth; name: member entities; "
+                          "set: not through renamed selects)", ("type", decl)))
     # entities with their attribute lines, as blocks
     def blocks(lines):
         d, cur = {}, None
@@ -537,6 +562,12 @@ def oracle_raw(R):
             cls = "duplicate" if len(set(got)) != len(got) else ("missing" if set(got) < set(want) else "order")
             probs.append((f"p21-order:{cls}", f"fresh instance of {n} exposes {got}, Part 21 order is {want}", ("entity", e["name"])))
     for l in acc:
+        if l.startswith("SELENT "):
+            w = l.split(" ")
+            if w[3] != "ok":
+                probs.append(("select:entity-member-refused", f"attribute {w[1]} of a select type refuses an instance of {w[2]}, which the "
+                              f"select can hold through its member selects (AssignEntity / written value: {' '.join(w[4:])})", None))
+            continue
         if l.startswith("LST "):
             w = l.split(" ")
             if w[4] != "ok":
